@@ -13,7 +13,7 @@ import (
 	"verif/harness/sm"
 )
 
-const ruleC06 = "model-based state machine with a failure-rich mix (deletes of absent ids, duplicate/malformed inserts, invalid updates, drop + re-create of collections and indexes under the same name, prefix-related index fields x/xy and n/n.a, in-place updaters). After every step the complete raw key space of the undecorated store is compared with the key set derived from the model (metadata with exact Size and index list, one record per live document, exactly one index entry per document and index under the current value - key bytes from index.Add on a recording transaction -, no other key), Count(no criteria) with len(FindAll), and one index-ordered scan per index. An evaluation is one audited step; non-trivial when the history already contains a delete, drop or failed write while at least one index exists; distinct = distinct (operation, model state)."
+const ruleC06 = "model-based state machine with a failure-rich mix (deletes of absent ids, duplicate/malformed inserts, invalid updates, drop + re-create of collections and indexes under the same name, prefix-related index fields x/xy and n/n.a, in-place updaters). After every step the complete raw key space of the undecorated store is compared with the key set derived from the model (metadata with exact Size and index list, one record per live document, exactly one index entry per document and index under the current value - key bytes from index.Add on a recording transaction -, no other key), Count(no criteria) with len(FindAll), and one index-ordered scan per index. An evaluation is one audited step; non-trivial when the history already contains a delete, drop or failed write while at least one index exists; distinct = distinct (operation, model state). A second part runs concurrent programs (deletes of the same ids, inserts, bulk deletes, index creation/drop racing on one handle, schedule perturbed at every store call) followed by a sequential epilogue of Count, full and index-ordered scans and catalogs; the whole history must be linearizable, so the quiescent state after the race has consistent counters, documents and index entries."
 
 func c06Profile() *sm.Profile {
 	return &sm.Profile{
@@ -85,6 +85,22 @@ func c06Session(backend string) (*sm.Session, error) {
 func init() { registerSM("C06", "c06", c06Session) }
 
 func TestC06(t *testing.T) {
+	t.Run("histories", testC06Histories)
+	t.Run("concurrent", func(t *testing.T) {
+		// quiescent points after concurrent use: deletes of the same ids, inserts, index creation and
+		// drop racing on one handle; the sequential epilogue (Count, scans, catalogs) must have a
+		// sequential explanation, i.e. counters, documents and index entries agree
+		col := collector("C06", ruleC06)
+		check(t, "C06", cases(60, 1500), 0, func(rt *rapid.T) {
+			h, verdict := concurrentCase(rt, "C06", []string{"deletebyid", "deletebyid", "deletebyid", "insert", "delete", "createindex", "dropindex", "updatebyid", "count"})
+			col.Case(overlapWrite(h), hashOf(h.Setup, len(h.Ops), h.Ops[0].Op), func() interface{} {
+				return map[string]interface{}{"mode": "concurrent", "backend": h.Backend, "operations": len(h.Ops), "verdict": verdict}
+			}, "concurrent", "verdict:"+verdict)
+		})
+	})
+}
+
+func testC06Histories(t *testing.T) {
 	col := collector("C06", ruleC06)
 	backends := []string{run.Bbolt, run.Bbolt, run.BadgerMem}
 	check(t, "C06", cases(2500, 60000), ev.Scale(20, 30), func(rt *rapid.T) {
